@@ -149,13 +149,12 @@ def electrostatic_potential(
     hartree_potential = np.sum(hartree_potential, axis=(0, 1))
 
     # silence warning for dividing by zero
-    old_settings = np.seterr(divide="ignore")
-    dist = np.sum((points[:, :, None] - nuclear_coords.T[None, :, :]) ** 2, axis=1) ** 0.5
-    external_potential = nuclear_charges[None, :] / dist
-    # zero out potentials of nuclei that are too close to the point
-    external_potential[dist < threshold_dist] = 0
-    # restore old settings
-    np.seterr(**old_settings)
+    # silence division by zero (points on nuclei) only within this block
+    with np.errstate(divide="ignore"):
+        dist = np.sum((points[:, :, None] - nuclear_coords.T[None, :, :]) ** 2, axis=1) ** 0.5
+        external_potential = nuclear_charges[None, :] / dist
+        # zero out potentials of nuclei that are too close to the point
+        external_potential[dist < threshold_dist] = 0
     # sum over potentials for each dimension
     external_potential = -np.sum(external_potential, axis=1)
 
